@@ -9,6 +9,7 @@ from decimal import Decimal
 from common import *
 import c16_extract
 import c16_fmt
+import c16_full
 
 chk = Check('C16')
 chk.extra['rule'] = ('random systems (1-5 molecules, arbitrary integer node keys, atom ids that reorder the nodes, '
@@ -27,7 +28,7 @@ gen, extract_err = None, None
 try:
     LAY = c16_extract.extract(REPO)
     c16_extract.check_runtime(LAY)
-    gen = {'C16Layout.lean': c16_extract.render_lean(LAY)}
+    gen = {'C16Layout.lean': c16_extract.render_lean(LAY), 'C16LayoutX.lean': c16_extract.render_lean_x(LAY)}
 except Exception as exc:  # the tie is broken: keep the committed layout, search for a failing input
     extract_err = '%s: %s' % (type(exc).__name__, exc)
 chk.lean(['VermouthProps.C16', 'VermouthProps.C16Tables', 'VermouthProps.C16File', 'VermouthProps.C16Gro',
@@ -662,6 +663,16 @@ def process(job):
     try:
         if case['kind'] == 'history':
             run_history(cid, case)
+        elif case['kind'] in ('xsys', 'pdbtext', 'grotext'):
+            if case['kind'] == 'xsys':
+                recs, cts = c16_full.run_xsys(cid, case, TMP, HELPERS)
+            elif case['kind'] == 'pdbtext':
+                recs, cts = c16_full.run_pdbtext(cid, case, TMP, known)
+            else:
+                recs, cts = c16_full.run_grotext(cid, case, TMP)
+            records.extend(recs)
+            for k, v in cts.items():
+                cnt(k, v)
         else:
             run_pdb(cid, case)
             run_gro(cid, case)
@@ -669,6 +680,18 @@ def process(job):
         err = ('harness:' + cid, tail(traceback.format_exc()))
     return list(records), dict(counts), set(beyond), err
 
+
+# the full model: extra node attributes and keyword arguments, hand-made PDB and GRO texts (harness/c16_full.py)
+HELPERS = {'gro_variant': gro_variant, 'STR_ATTRS': STR_ATTRS, 'has_letter': has_letter, 'want_str': want_str}
+rngx = chk.rng('xsys')
+for i in range(2000 if chk.thorough else 250):
+    cases.append(('xsys-%d' % i, c16_full.extend_case(rngx, rand_case(rngx, 'plain'))))
+rngt = chk.rng('pdbtext')
+for i in range(4000 if chk.thorough else 500):
+    cases.append(('pdbtext-%d' % i, c16_full.rand_pdbtext(rngt)))
+rngg = chk.rng('grotext')
+for i in range(3000 if chk.thorough else 350):
+    cases.append(('grotext-%d' % i, c16_full.rand_grotext(rngg)))
 
 # histories: several files per process (GRO files of different precision, PDB files of different systems)
 rngh = chk.rng('histories')
@@ -730,6 +753,9 @@ chk.extra['phase_s']['driver_done'] = round(chk.elapsed(), 1)
 for (cid, ln, impl, errs, nontriv, finding, use), mo in zip(records, models):
     if cid in beyond and mo == 'err unmodelled':
         mo = None     # reader behaviour outside the model (merging molecules): oracle-only case
+    if cid.endswith('x') and mo == 'err unmodelled':
+        mo = None     # e.g. a GRO file of fewer than three lines (StopIteration), a negative atom count
+        chk.count('full_model_unmodelled')
     if cid.endswith('trunc') and mo == 'skip':
         mo = None     # an atom the reader drops or stops at by design (element not found, altloc, '#'): no closed form
         chk.count('trunc_closed_form_not_applicable')
